@@ -535,9 +535,11 @@ class Kernel(Module):
             # Did this Kernel eat the diag option?
             # If it does not return a LazyEvaluatedKernelTensor, we can call diag on the output
             if not isinstance(res, LazyEvaluatedKernelTensor):
-                # (a full covariance has one more dimension than the inputs when last_dim_is_batch=True;
-                #  a `... x K x N` diagonal with K == N must not be mistaken for it)
-                full_dim = x1_.dim() + (1 if last_dim_is_batch else 0)
+                # A full covariance is `*batch x N x N` where batch is the broadcast of the kernel's and the inputs'
+                # batch shapes (plus one dimension when last_dim_is_batch=True). A `*batch x N` diagonal whose last
+                # batch dimension happens to equal N must not be mistaken for it.
+                batch_shape = torch.broadcast_shapes(self.batch_shape, x1_.shape[:-2], x2_.shape[:-2])
+                full_dim = len(batch_shape) + 2 + (1 if last_dim_is_batch else 0)
                 if res.dim() == full_dim and res.shape[-2:] == torch.Size((x1_.size(-2), x2_.size(-2))):
                     res = res.diagonal(dim1=-1, dim2=-2)
             return res
